@@ -21,6 +21,7 @@ EXPLANATION = (
     "the operands' Transition objects by reference, left then right; (events) every event form passes through ensure_iterable "
     "and a split on spaces, duplicates are dropped; (enum) from_enum sets initial by identity, final by membership, value by "
     "the flag. Behavioural equivalence of whole machines and the metaclass' event re-wiring are NOT decided."
+    " Added after seeded batch 9: events given to from_.any(event=...) must be carried by the per-state copies and the copies must stand at the placeholder's position - both violated on the pinned tree (known findings F37, F38)."
 )
 ASSUMPTIONS = ["class body attributes are visited in declaration order (dict order)"]
 TRUSTED = ["/verif/sa path enumerator and call graph"]
